@@ -146,8 +146,10 @@ def tokens_of_text(text):
                 toks.append(t)
     for line in text.splitlines():
         t = line.strip()
-        if t.startswith('>>>') or t.startswith('...'):
+        if t.startswith('>>>'):
             continue
+        if t.startswith('...'):
+            t = t[3:].strip()
         if t and t not in seen and len(t) < 200:
             seen.add(t)
             toks.append(t)
@@ -215,7 +217,7 @@ def corpus(name, limit=None, rng=None, extra_from=()):
                     ok = False
                 if ok is True:
                     found.append(t)
-        if len(found) < 3:
+        if len(found) < 12:
             # fall back on every token of every doctest file
             for t in _all_test_tokens():
                 if t in seen:
@@ -711,6 +713,14 @@ def synth_valid(name, count, rng, base=None, leading_zero_bias=0.3):
             cand = _repair(mod, cand)
             if cand is None or cand in seen:
                 continue
+        try:
+            canon_cand = mod.validate(cand)
+        except Exception:  # noqa: B902
+            continue
+        if isinstance(canon_cand, str) and canon_cand:
+            cand = canon_cand
+        if cand in seen:
+            continue
         seen.add(cand)
         out.append(cand)
     return out
